@@ -26,8 +26,13 @@ def run(ctx):
     ctx.rule("R01-3", "tokenizer: when a backslash escapes a character that a later pass acts on inside an untagged word "
                       "($ * ~ { } , & ` !), the escape is remembered (a quote tag is set, or the backslash is kept); "
                       "otherwise the escaped character is indistinguishable from an unescaped one and is acted on")
+    ctx.rule("R01-5", "an argument is split only where the user separated words: every character-class test or word-splitting "
+                      "call the tokenizer (and the helpers that build its token list) applies accepts nothing but the ASCII "
+                      "blanks a shell splits at (space, TAB, newline) - `split_whitespace` / `is_whitespace` also split "
+                      "at U+3000, U+00A0, U+2003 ..., cutting a multi-byte argument in two")
     for crate in ctx.crates:
         escape_rule(ctx, crate)
+        blank_class_rule(ctx, crate)
         from .. import ispace
         n = ispace.rule(ctx, crate, "R01-4", ["parsers::parser_line::parse_line", "parsers::parser_line::line_to_cmds"])
         ctx.require(crate.fn("parsers::parser_line::parse_line") is not None and
@@ -324,3 +329,27 @@ def escape_rule(ctx, crate):
         ctx.ob("R01-3", b.path, "escaped %s keeps a trace of the escape (later: %s)" % (X, who), ok,
                key="R01-3|%s|escape-erased|%s" % (b.path, name), where=b.loc(bad[0]) if bad else "", crate=crate.kind,
                detail=None if ok else "`\\%s` inside an unquoted word becomes a plain untagged %s, so %s still acts on it" % (X, X, who))
+
+
+def blank_class_rule(ctx, crate):
+    from .c20 import char_tests, splitter_preds, PRED_SETS, TOKENIZERS
+    n = 0
+    for p in TOKENIZERS:
+        b = crate.fn(p)
+        if b is None:
+            continue
+        eqs, preds = char_tests(b)
+        preds = dict(preds)
+        preds.update({k: v for k, v in splitter_preds(crate, b).items() if k not in preds})
+        n += len(eqs)
+        for name, where in sorted(preds.items()):
+            accepted = PRED_SETS.get(name.split(" (via")[0])
+            if accepted is None:
+                continue
+            extra = [c for c in accepted if c not in " \t\n\r"]
+            ctx.ob("R01-5", p, "class test %s accepts only ASCII blanks" % name, not extra,
+                   key="R01-5|%s|pred|%s" % (p, name), where=where, crate=crate.kind,
+                   detail=None if not extra else "an unquoted argument containing %s is cut in two (a shell splits at space, TAB "
+                   "and newline only)" % ", ".join("U+%04X" % ord(c) for c in extra[:5]))
+    ctx.ob("R01-5", "tokenizers", "%d equality tests, no wider character class in the tokenizers" % n, True, crate=crate.kind,
+           nontrivial=False)
